@@ -148,7 +148,8 @@ func (p *Program) scopeFuncKeys() []string {
 	return ks
 }
 
-// typeKey: short name for a named type: client.RpcMultiplexer, goatorepo.Rpc, sync.Mutex
+// typeKey: name for a named type: client.RpcMultiplexer, goatorepo.Rpc, sync.Mutex,
+// google.golang.org/grpc/stats.Handler (full import path outside the module)
 func typeKey(t types.Type) string {
 	t = types.Unalias(t)
 	switch t := t.(type) {
@@ -160,9 +161,12 @@ func typeKey(t types.Type) string {
 		if s, ok := scopePkgs[o.Pkg().Path()]; ok {
 			return s + "." + o.Name()
 		}
-		return o.Pkg().Name() + "." + o.Name()
+		if strings.HasPrefix(o.Pkg().Path(), modPath+"/gen/goatorepo") {
+			return "goatorepo." + o.Name()
+		}
+		return o.Pkg().Path() + "." + o.Name()
 	case *types.Pointer:
 		return "*" + typeKey(t.Elem())
 	}
-	return types.TypeString(t, func(p *types.Package) string { return p.Name() })
+	return types.TypeString(t, func(p *types.Package) string { return p.Path() })
 }
